@@ -146,6 +146,11 @@ TABLE.update({
     "c06_inlinable_signal_right_side.diff": ("contracts.c16b", "_is_inlinable_bundle_condition", None),
     "c06_inlined_operator_fixed.diff": ("contracts.c16b", "_lower_inlined_bundle_condition", "BundleAllExpr"),
     "c01_runtime_literal_value_zero.diff": ("e2e", 'Signal x = ("signal-X", 5);\nSignal r = ("signal-A", x + 1);\nSignal q = r * 2;\n', None),
+    "fixrev_9610d51.diff": ("contracts.c01", "_try_fold_logical_chain", "OP = ||; shape wild OP c2"),
+    "fixrev_d21aece.diff": ("contracts.c02", "_lower_bundle_filter_output_spec", "output: constant"),
+    "fixrev_d21aece_e2e.diff": ("e2e", 'Bundle b = { ("signal-C", 20), ("signal-D", 5) };\nint k = 6;\nBundle q = (b > 4) : k;\n', None),
+    "fixrev_a711e42.diff": ("contracts.c02", "_lower_identifier_condition_output_spec", None),
+    "fixrev_a711e42_e2e.diff": ("e2e", 'Signal x = ("signal-A", 6);\nBundle b = { ("signal-C", 20), ("signal-D", 5) };\nSignal c = x > 3;\nBundle g = c : b;\n', None),
     "c08_preserved_shares_network_zero.diff": ("contracts.c12", "_restore_preserved_connection", None),
     "c08_preserved_routing_failure_ignored.diff": ("contracts.c12", "_restore_preserved_connection", None),
     "c08_preserved_span_doubled.diff": ("contracts.c12", "_restore_preserved_connection", None),
